@@ -35,6 +35,17 @@ var commonAssumptions = []string{
 // All lists the claimed properties.
 var All = []*Prop{
 	{
+		ID:    "C08",
+		Rules: []*core.Rule{rules.UnwindAgree, rules.UncatchableClose, rules.IterPop, rules.CtxFields},
+		Explanation: "R-UNWINDAGREE: the two compile-time walkers of the block stack (break/continue and return) emit, for every block kind, clean-up instructions with the same effect on vm.tryStack / vm.iterStack (effects derived from the exec methods): a kind unwound by one exit kind and not the other skips a finally or leaves an iterator open. " +
+			"R-UNCATCHABLECLOSE ('interrupts and stack overflows run none of them'): iterator-closing code on exceptional paths is guarded by a classification excluding uncatchable payloads. " +
+			"R-ITERPOP ('exactly once'): an instruction that pops an iterator record removes it from vm.iterStack before any call that can throw a JS exception past it. " +
+			"R-CTXFIELDS: try/iterator/reference records pending across a yield are saved, cut, restored and re-based consistently, and a suspension with nothing to save cannot inherit the previous suspension's records.",
+		Technique:  "sibling table agreement with effects derived from exec methods; controlling-condition classification of cleanup calls; store-before-call ordering; writer/reader field-set agreement",
+		DesignRef:  "DESIGN.md section 4, C08",
+		NotCovered: "'exactly once, innermost to outermost' as a whole, completion-value override by finally, catch/finally frame state machine (catchPos/finallyPos transitions in enterFinally/leaveFinally), generator return through nested finally blocks (enterNextFinallyFrame boundary tests), which getter of the iteration result is read inside which guard",
+	},
+	{
 		ID:    "C01",
 		Rules: []*core.Rule{rules.PanicPayload, rules.ASTDispatch, rules.SelfAssert, rules.NilDesc, rules.Recover, rules.Classifier},
 		Explanation: "Clauses decided: the engine's own ways of producing a non-documented panic are closed. " +
